@@ -37,6 +37,7 @@ type Instance struct {
 	Timeout int // ms per query
 	MaxPaths int
 	Known   []string // active known-finding ids
+	MaxSeconds float64
 	Concrete map[string]string // if set: run as a concrete interpreter with these inputs (translator validation)
 }
 
@@ -166,6 +167,10 @@ func (P *Program) runInstance(inst *Instance, sol *Solver) *InstanceResult {
 	for len(work) > 0 {
 		prefix := work[len(work)-1]
 		work = work[:len(work)-1]
+		if time.Since(t0).Seconds() > inst.MaxSeconds {
+			res.Stats.Inconclusive = append(res.Stats.Inconclusive, fmt.Sprintf("time budget %.0fs exhausted with %d prefixes pending", inst.MaxSeconds, len(work)+1))
+			break
+		}
 		if res.Stats.Paths >= inst.MaxPaths {
 			res.Stats.Inconclusive = append(res.Stats.Inconclusive, fmt.Sprintf("path budget %d exhausted with %d prefixes pending", inst.MaxPaths, len(work)+1))
 			break
@@ -173,8 +178,8 @@ func (P *Program) runInstance(inst *Instance, sol *Solver) *InstanceResult {
 		e := &Exec{
 			prog: P.prog, sol: sol, prefix: prefix, globals: map[*ssa.Global]*Object{}, allow: map[*Object]bool{},
 			unwind: inst.Unwind, cases: inst.Case, harness: inst.Harness, budget: inst.Budget, stats: &res.Stats,
-			tokLitEq: map[string]Bool{}, ufs: map[string]bool{}, stubs: stubs, timeoutMs: inst.Timeout, repoPrefix: repoMod,
-			known: map[string]bool{}, concrete: inst.Concrete,
+			tokLitEq: map[string]Bool{}, tokOvfAx: map[int]bool{}, ufs: map[string]bool{}, stubs: stubs, timeoutMs: inst.Timeout, repoPrefix: repoMod,
+			known: map[string]bool{}, concrete: inst.Concrete, deadline: t0.Add(time.Duration(inst.MaxSeconds * float64(time.Second))),
 		}
 		for _, k := range inst.Known {
 			e.known[k] = true
@@ -185,8 +190,15 @@ func (P *Program) runInstance(inst *Instance, sol *Solver) *InstanceResult {
 		status := P.runPath(e, fn)
 		sol.Send("(pop 1)")
 		res.Stats.Paths++
+		if slowLog && res.Stats.Paths%50 == 0 {
+			fmt.Fprintf(os.Stderr, "  hist %v\n", deadHist)
+			fmt.Fprintf(os.Stderr, "  .. %s %v paths=%d pending=%d ended=%v %.0fs\n", inst.Harness, inst.Case, res.Stats.Paths, len(work)+len(e.pending), res.Stats.Ended, time.Since(t0).Seconds())
+		}
 		res.Stats.Instrs += e.instrs
 		res.Stats.Ended[status.status]++
+		if slowLog && status.status != "done" {
+			deadHist[status.status+": "+status.msg]++
+		}
 		switch status.status {
 		case "unsupported", "unwind", "budget", "internal":
 			res.Stats.Inconclusive = append(res.Stats.Inconclusive, status.status+": "+status.msg)
@@ -252,6 +264,7 @@ type ReplayOut struct {
 }
 
 var replayMu sync.Mutex
+var deadHist = map[string]int{}
 
 // nativeReplay runs the records against the native build of package dir (one go test run).
 func (P *Program) nativeReplay(dir string, recs []ReplayRec) (map[string]*ReplayOut, error) {
